@@ -2289,6 +2289,25 @@ def push_down_new_base_methods(trees, stats):
                     and not any(x is y for _, d in subs for y in d.bases)]
       if other_refs:
         continue
+      # the methods must mean the same in the subclass's module: every module-level name they read is bound to the same thing there
+      modname_ = {}
+      for r_ in trees:
+        nm_ = r_[:-3].replace('/', '.')
+        modname_[nm_[:-9] if nm_.endswith('.__init__') else nm_] = r_
+      same = True
+      free_ = set(x.id for m in members for x in ast.walk(m) if isinstance(x, ast.Name) and isinstance(x.ctx, ast.Load))
+      bound_b = _bound_names(trees[rel])
+      for r2, d in subs:
+        if r2 == rel:
+          continue
+        for nm_ in free_ & bound_b:
+          if _binding_text(trees[rel], rel, nm_, modname_) != _binding_text(trees[r2], r2, nm_, modname_):
+            same = False
+      if not same:
+        continue
+      # only a base listed FIRST is sure to win the method lookup over the other bases
+      if any(ast.unparse(d.bases[0]).split('.')[-1] != B.name for r2, d in subs):
+        continue
       for r2, d in subs:
         have = set(f.name for f in d.body if isinstance(f, ast.FunctionDef))
         for m in members:
@@ -2685,6 +2704,30 @@ def _bound_names(tree):
   return out
 
 
+def _binding_text(tree, rel, nm, modname):
+  """A canonical description of what the top level of a module binds `nm` to (import origin or the text of the assigned value / definition)."""
+  out = None
+  for st in tree.body:
+    if isinstance(st, ast.ImportFrom):
+      for a in st.names:
+        if (a.asname or a.name) == nm:
+          arel, src = _resolve_from(rel, st, modname)
+          out = 'from %s import %s' % (src, a.name)
+    elif isinstance(st, ast.Import):
+      for a in st.names:
+        if (a.asname or a.name).split('.')[0] == nm:
+          out = 'import %s' % a.name
+    elif isinstance(st, FN + (ast.ClassDef,)) and st.name == nm:
+      out = ast.unparse(st)
+    elif isinstance(st, ast.Assign) and any(isinstance(t, ast.Name) and t.id == nm for t in st.targets):
+      out = ast.unparse(st.value)
+    elif isinstance(st, ast.Try):
+      for s2 in ast.walk(st):
+        if isinstance(s2, ast.ImportFrom) and any((a.asname or a.name) == nm for a in s2.names):
+          out = ast.unparse(st)
+  return out
+
+
 def move_back_from_new_modules(trees, stats):
   """"Move to a new module and import it back" undone: a module the reference tree does not have, whose top-level classes / functions / simple
   constants are imported by name into a reference module, gives those definitions back to the importing module (at the place of the import,
@@ -2763,12 +2806,25 @@ def move_back_from_new_modules(trees, stats):
           extra = []
           ok = True
           free = set(n.id for c in closure for n in ast.walk(c) if isinstance(n, ast.Name) and isinstance(n.ctx, ast.Load))
+          bound_a = _bound_names(atree)
           for nm in sorted(free):
-            if nm in bound or nm in names_a or nm in (dir(__builtins__) if not isinstance(__builtins__, dict) else __builtins__):
+            if nm in names_a and not any(names_a[nm] is c_ for c_ in closure):
+              continue
+            if nm in names_a:
+              continue
+            if nm in bound and nm in bound_a:
+              # bound in both modules: it must be the same thing, or the moved code would silently read another object here
+              if _binding_text(tree, rel, nm, modname) != _binding_text(atree, arel, nm, modname):
+                ok = False
+              continue
+            if nm in bound or nm in (dir(__builtins__) if not isinstance(__builtins__, dict) else __builtins__):
               continue
             got = _import_for(nm, atree, arel, src)
             if got is not None:
               extra.append(got)
+          if not ok:
+            stats.setdefault('moveback_refused', []).append((arel, al.name))
+            continue
           ordered = [x for x in atree.body if any(x is c for c in closure)]
           new_nodes = []
           for c in ordered:
